@@ -170,7 +170,7 @@ pub fn light_transcript<F: Fl>(n: usize, conns: &[(K, K)], vals: &[i8]) -> Trans
                     let ress: Vec<ResK> = if kind.is_order() { vec![ResK::Nodes, ResK::Edges] } else if target.is_none() { vec![ResK::Search, ResK::Cycle] } else { vec![ResK::Search, ResK::Path] };
                     for res in ress {
                         for alt in [false, true] {
-                            let cfg = Cfg { kind, transpose, target, meth: Meth::ForEach, res, alt };
+                            let cfg = Cfg { kind, transpose, target, meth: Meth::ForEach, res, alt, tt: false };
                             t.push((format!("n{}.{}", root, cfg.describe()), g(exec::<F>(&w, root as K, &cfg, &[]))));
                         }
                     }
